@@ -306,7 +306,11 @@ def replay(path):
             argv.append("@file:" + p)
         else:
             argv.append(a)
-    p = subprocess.run([binary] + argv, capture_output=True, text=True, cwd=VERIF)
+    env = dict(os.environ)
+    if argv and argv[0].startswith(("c14", "c18")):
+        # these counterexamples run the solstat binary itself: rebuild it from /repo's working tree
+        env["VXN_SOLSTAT_BIN"] = build_repo_binary()
+    p = subprocess.run([binary] + argv, capture_output=True, text=True, cwd=VERIF, env=env)
     print("--- replay on the real code: %s ---" % " ".join(x if len(x) < 80 else x[:77] + "..." for x in argv))
     print(p.stdout.strip())
     if p.returncode == 1:
